@@ -2,6 +2,8 @@
 // blocks so that the match finder's 260 KiB hash tables are not mmap'ed/unmapped in every execution
 // (page faults dominated the run time). Cached blocks are ASan-poisoned while they sit in the cache.
 // Only relaxed atomics are used: they add no happens-before edges that could hide a race from TSan.
+// A block taken from the cache is announced to ThreadSanitizer as new memory (what free()+malloc() would have done): without that,
+// the previous owner's last reads (e.g. lzma2_encoder_end) and the new owner's first writes (lzma2_encoder_init) look like a race.
 #ifndef HALLOC_H
 #define HALLOC_H
 #include <lzma.h>
@@ -19,6 +21,20 @@ void __asan_unpoison_memory_region(void const volatile *addr, size_t size);
 #  define __asan_poison_memory_region(a, s) ((void)0)
 #  define __asan_unpoison_memory_region(a, s) ((void)0)
 #endif
+#if defined(__has_feature)
+#  if __has_feature(thread_sanitizer)
+#    define HA_TSAN 1
+#  endif
+#endif
+#if defined(__SANITIZE_THREAD__) && !defined(HA_TSAN)
+#  define HA_TSAN 1
+#endif
+#ifdef HA_TSAN
+void AnnotateNewMemory(const char *file, int line, const volatile void *mem, size_t size);
+#  define HA_NEW_MEMORY(p, n) AnnotateNewMemory(__FILE__, __LINE__, (p), (n))
+#else
+#  define HA_NEW_MEMORY(p, n) ((void)0)
+#endif
 #define HA_BIG 16384
 #define HA_SLOTS 64
 static atomic_long a_live, a_allocs;
@@ -29,7 +45,7 @@ static void *ha_alloc(void *o, size_t n, size_t sz) {
 	ha_hdr *h = NULL;
 	if (t >= HA_BIG) for (int i = 0; i < HA_SLOTS; i++) if (atomic_load_explicit(&ha_cache[i].size, memory_order_relaxed) == t) {
 		void *p = atomic_exchange_explicit(&ha_cache[i].p, NULL, memory_order_relaxed);
-		if (p) { h = p; __asan_unpoison_memory_region(h + 1, t); break; } }
+		if (p) { h = p; __asan_unpoison_memory_region(h + 1, t); HA_NEW_MEMORY(h + 1, t); break; } }
 	if (!h) { h = malloc(sizeof *h + (t ? t : 1)); if (!h) return NULL; h->size = t; }
 	atomic_fetch_add_explicit(&a_live, 1, memory_order_relaxed); atomic_fetch_add_explicit(&a_allocs, 1, memory_order_relaxed);
 	return h + 1;
